@@ -127,6 +127,16 @@ CLAIMS = {
         design_ref="§4 C17",
         note=("Trusted base: rustc const evaluation; the bech32 crate's polymod engine (dependency); Python integer arithmetic; the MIR dump for the "
               "structure obligations. The unblinded bech32/bech32m path uses the dependency's decoder and constants (side-checked on the published values).")),
+    "C16": dict(
+        category="other",
+        text=("Decides the structural clauses of C16: the exact truth table of each of the ten template predicates over its own atomic "
+              "conditions (length and byte comparisons against compiler-evaluated opcode constants) equals the specification table; "
+              "Address::from_script takes the payload from the byte range the guarding predicate establishes and dispatches in the "
+              "specified order; builders emit the opcodes the predicates test at the same positions; the push-size thresholds of "
+              "push_slice, the minimal-push thresholds of Instructions::next and the PUSHDATA operand widths agree; small-integer, "
+              "OP_TRUE/OP_FALSE and verify-folding tables. Script-number arithmetic and byte-level builder/iterator round trips are not decided."),
+        technique="exact truth tables of boolean predicates (all valuations of their atoms) + table agreement between sibling builder/parser",
+        design_ref="§4 C16, Appendix D"),
 }
 
 NOT_YET = "rule set designed in DESIGN.md but not built yet in this round; no claim is made"
